@@ -9,6 +9,7 @@ import (
 )
 
 var harnesses = map[string]func(){
+	"webh.H_EchoConc": webh.H_EchoConc,
 	"webh.H_Probe": webh.H_Probe,
 	"webh.H_Echo":  webh.H_Echo,
 }
